@@ -5,8 +5,10 @@ Direct oracle (never uses the model): generated SEG-Y files (regular / irregular
 fields constant, varying, duplicated, equal-at-both-ends, negative, at the extremes of their 2- or 4-byte width; trace
 counts with 4*n mod 512 in {0, 4, 508} and 1..3 strides) x the four detection modes: gen_trace_header(i) (both access
 paths), header[i], get_tracefield_values(f), variant_headers, bin, text against segyio on the source, and bytes
-4096..7695 of the SGZ against the first 3600 bytes of the SEG-Y.  NumPy route: header dicts of any integer dtype, any
-set of fields (incl. codes > 193), default inline/crossline headers.
+4096..7695 of the SGZ against the first 3600 bytes of the SEG-Y.  NumPy route: header dicts of any integer dtype in
+either byte order (1, 2, 4, 8 bytes, signed and unsigned; every one of them in each covering case), in C / Fortran /
+strided-view memory layout, any set of fields (incl. codes > 193), default inline/crossline headers built from axes
+given as arrays of any of those dtypes.
 
 Correspondence (model = coq/Model/Headers.v evaluated through tools/coqeval.py on the same inputs): table bytes, array
 count, array length, file length, the reader's template (constants / file offsets), classification lists of
@@ -469,7 +471,37 @@ def segy_case(label, kind, dims, how_many, clean, blockshape=None, bpv=8, reduce
 
 
 # ------------------------------------------------------------------------------------------------ NumPy route
-def numpy_case(label, nfields, dtypes):
+NP_DTYPES = ['int8', 'uint8', '<i2', '>i2', '<u2', '>u2', '<i4', '>i4', '<u4', '>u4', '<i8', '>i8', '<u8', '>u8']
+NP_LAYOUTS = ['C', 'C', 'F', 'strided']
+NP_AXES = [None, '<i4', '>i4', '<i2', '>i2', '<u2', '>u2', '<u4', '>u4', '<i8', '>i8', '>u8', 'uint8', 'int8']
+
+
+def np_layout(arr, layout):
+    """the same values in another memory layout (what the caller's array looks like is not part of the property)"""
+    if layout == 'F':
+        return np.asfortranarray(arr)
+    if layout == 'strided':
+        big = np.zeros((arr.shape[0] + 1, 2 * arr.shape[1] + 1), dtype=arr.dtype)
+        big[1:, 1::2] = arr
+        return big[1:, 1::2]
+    return arr
+
+
+def np_axis(rng, n, start, step, how):
+    """an inline / crossline axis as the caller may give it: None or an array of any integer dtype
+    (a plain list is refused by make_header with AttributeError before anything is written: not a C04 matter)"""
+    if how is None:
+        return None
+    info = np.iinfo(np.dtype(how))
+    if start < info.min:              # unsigned
+        start = 3
+    while step > 1 and start + step * (n - 1) > info.max:       # one-byte axes
+        step -= 1
+    return np.array([start + step * i for i in range(n)]).astype(how)
+
+
+def numpy_case(label, nfields, dtypes, cover=False, axes=None):
+    """cover: one field per element of dtypes (every dtype present in the one file); axes: the (ilines, xlines) kinds"""
     rng = random.Random(f'{a.seed}:{label}')
     shape = rng.choice([(3, 5), (8, 16), (3, 43), (16, 16), (5, 26), (2, 2), (16, 24)])
     n_il, n_xl = shape
@@ -478,31 +510,40 @@ def numpy_case(label, nfields, dtypes):
     n = n_il * n_xl
     g = np.random.RandomState(rng.randrange(2 ** 31))
     pool = [f for f in FIELDS]
+    if cover:
+        nfields = len(dtypes)
     user = rng.sample(pool, nfields)
     if rng.random() < 0.5 and nfields:
         user[0] = rng.choice([197, 201, 205, 209, 225, 231])       # a code above 193
     user = list(dict.fromkeys(user))
-    th, truth = {}, {}
-    il_given = xl_given = None
-    for f in user:
-        dt = np.dtype(rng.choice(dtypes))
+    while cover and len(user) < nfields:
+        user.append(rng.choice([f for f in pool if f not in user]))
+    th, truth, layouts = {}, {}, {}
+    cover_dts = rng.sample(dtypes, len(dtypes)) if cover else None
+    for k, f in enumerate(user):
+        dt = np.dtype(cover_dts[k] if cover and k < len(cover_dts) else rng.choice(dtypes))
         info = np.iinfo(dt)
         lo, hi = max(info.min, -2 ** 31), min(info.max, 2 ** 31 - 1)
-        if f == 189:
-            base = np.array([rng.randint(max(lo, -50), min(hi, 50)) for _ in range(n_il)])
-            arr = np.repeat(base, n_xl).reshape(shape)
-        elif f == 193:
-            base = np.array([rng.randint(max(lo, -50), min(hi, 50)) for _ in range(n_xl)])
-            arr = np.tile(base, n_il).reshape(shape)
+        if f in (189, 193):
+            base = np.array([rng.randint(max(lo, -50), min(hi, 50)) for _ in range(n_il if f == 189 else n_xl)])
+            if dt.kind == 'u' and dt.itemsize >= 4 and base[1] < base[0]:
+                # make_header takes axis[1] - axis[0] in the array's own dtype: a descending start of an unsigned 4/8-byte
+                # axis wraps and the conversion is refused (struct.error) before anything is written -- not a C04 matter
+                base[0], base[1] = base[1], base[0]
+            arr = np.repeat(base, n_xl).reshape(shape) if f == 189 else np.tile(base, n_il).reshape(shape)
         else:
             arr = g.randint(lo, hi + 1 if hi < 2 ** 31 - 1 else hi, size=shape, dtype=np.int64)
             arr.reshape(-1)[0], arr.reshape(-1)[-1] = lo, hi
-        th[f] = arr.astype(dt)
+        layouts[f] = rng.choice(NP_LAYOUTS)
+        th[f] = np_layout(arr.astype(dt), layouts[f])
         truth[f] = arr.astype(np.int64)
-    ilines = np.array([7 + 2 * i for i in range(n_il)]) if rng.random() < 0.6 and 189 not in user else None
-    xlines = np.array([-3 + 5 * x for x in range(n_xl)]) if rng.random() < 0.6 and 193 not in user else None
-    il_axis = truth[189][:, 0] if 189 in user else (ilines if ilines is not None else np.arange(n_il))
-    xl_axis = truth[193][0, :] if 193 in user else (xlines if xlines is not None else np.arange(n_xl))
+        assert th[f].dtype == dt and np.array_equal(th[f].astype(np.int64), truth[f])
+    il_how, xl_how = axes if axes is not None else (rng.choice(NP_AXES[1:]) if rng.random() < 0.6 else None,
+                                                    rng.choice(NP_AXES[1:]) if rng.random() < 0.6 else None)
+    ilines = np_axis(rng, n_il, 7, 2, il_how if 189 not in user else None)
+    xlines = np_axis(rng, n_xl, -3, 5, xl_how if 193 not in user else None)
+    il_axis = truth[189][:, 0] if 189 in user else (np.asarray(ilines).astype(np.int64) if ilines is not None else np.arange(n_il))
+    xl_axis = truth[193][0, :] if 193 in user else (np.asarray(xlines).astype(np.int64) if xlines is not None else np.arange(n_xl))
     expect = {f: np.zeros(shape, dtype=np.int64) for f in FIELDS}
     expect.update(truth)
     if 189 not in user:
@@ -510,8 +551,9 @@ def numpy_case(label, nfields, dtypes):
     if 193 not in user:
         expect[193] = np.tile(np.asarray(xl_axis), n_il).reshape(shape)
     p = os.path.join(d, 'np.sgz')
-    inp = {'case': label, 'shape': shape, 'fields': {str(f): str(th[f].dtype) for f in user}, 'ilines': ilines is not None,
-           'xlines': xlines is not None, 'seed': a.seed}
+    axis_s = lambda ax: None if ax is None else f'{ax.dtype.str} {[int(v) for v in ax[:3]]}..'
+    inp = {'case': label, 'shape': shape, 'fields': {str(f): f'{th[f].dtype.str} {layouts[f]}' for f in user},
+           'ilines': axis_s(ilines), 'xlines': axis_s(xlines), 'seed': a.seed}
     try:
         write_numpy_sgz(p, data, bpv=8, ilines=ilines, xlines=xlines, trace_headers=th if (user or rng.random() < 0.5) else None)
         with SgzReader(p) as r:
@@ -541,6 +583,10 @@ def numpy_case(label, nfields, dtypes):
         R.violation('oracle', inp, f'NumPy route: file length {len(raw)}, header implies {SpecFile(p).expected_length()}')
     R.case((label, shape, tuple(sorted(inp['fields'].items()))), True, sample=inp)
     R.count('numpy')
+    for f in user:
+        R.count(f'numpy dtype {th[f].dtype.str}')
+    for ax in (ilines, xlines):
+        R.count('numpy axis ' + ('default' if ax is None else ax.dtype.str))
     if a.no_model or n * len(user) > 6000:
         return
     ndb = struct.unpack('<I', raw[56:60])[0]
@@ -582,11 +628,20 @@ try:
     for idx, (kind, dims, hm, clean, bs, riops, fmt) in enumerate(plan()):
         if only is None or f'{kind}-{idx}' in only:
             segy_case(f'{kind}-{idx}', kind, dims, hm, clean, blockshape=bs, reduce_iops=riops, fmt=fmt)
-    ints = ['int8', 'uint8', 'int16', 'uint16', 'int32', 'uint32', 'int64', 'uint64']
-    for idx in range(14 if QUICK else 60):
+    for idx in range((14 if QUICK else 60) * (3 if a.search else 1)):
         nf = rng.choice([0, 1, 2, 4, 7])
         if only is None or f'numpy-{idx}' in only:
-            numpy_case(f'numpy-{idx}', nf, ints)
+            numpy_case(f'numpy-{idx}', nf, NP_DTYPES)
+    # ---- every integer dtype (both byte orders) in one file; every kind of axis for the default inline/crossline headers
+    for idx in range((2 if QUICK else 8) * (3 if a.search else 1)):
+        if only is None or f'numpy-cover-{idx}' in only:
+            numpy_case(f'numpy-cover-{idx}', len(NP_DTYPES), NP_DTYPES, cover=True)
+    for idx, how in enumerate(NP_AXES):
+        other = NP_AXES[(idx * 5 + 3) % len(NP_AXES)]
+        for rep in range((1 if QUICK else 3) * (2 if a.search else 1)):
+            nf = rng.choice([0, 0, 1, 3])
+            if only is None or f'numpy-axes-{idx}-{rep}' in only:
+                numpy_case(f'numpy-axes-{idx}-{rep}', nf, NP_DTYPES, axes=(how, other) if rep % 2 == 0 else (other, how))
     # ---- header keys that are TraceField codes but not fields of the 89-entry table must be refused, not written (D36)
     if only is None:
         for code in sorted(set(int(v) for v in segyio.tracefield.keys.values()) - set(FIELDS)):
